@@ -285,8 +285,9 @@ def kind_instances(rng, wa, tier):
     for ki, kind in enumerate(kinds):
         pk, ck = py_kind(kind), coq_kind(kind)
         for op in ops:
-            if tier == 'quick' and wa > 2 and (ki + len(op) + wa) % 3:
-                continue  # quick: a third of the (kind, op) grid per width above 2
+            if tier == 'quick' and (ki + len(op) + wa) % (3 if wa <= 4 else 6):
+                continue  # quick: a third (a sixth above 4 bits) of the (kind, op) grid per width;
+                # which third rotates with the width, so all of it is visited across widths
             f = BIN_SPECS[op]
             signed_int = op in ('signed_add', 'signed_mult')
             c = spec_signed_const(kind) if signed_int else spec_const(kind)
@@ -540,7 +541,7 @@ def make_jobs(ctx, only=None):
             pts = (keep + rest)[:cap]
             pts = list(dict.fromkeys(pts))
         jobs.append(Job('binary', binary_instances(wa, wb), wa, wb, pts, False))
-    uw = [6, 8, 17, 33, 64, 65, 128, 130] if tier == 'quick' else big + [5 + i * 7 for i in range(1, 17)]
+    uw = [6, 8, 17, 33, 64, 65, 127, 128, 130] if tier == 'quick' else big + [5 + i * 7 for i in range(1, 17)]
     for wa in uw:
         r = ctx.sub_rng('bigun', wa)
         pts = [(v, None) for v in boundary(r, wa, nun)]
